@@ -565,6 +565,7 @@ func main() {
 			{"u64", [3]valSpec{v("int64", "-1"), v("uint64", "18446744073709551615"), v("decimal", "-0.4")}},
 			{"u8", [3]valSpec{v("int8", "-1"), v("uint8", "255"), v("decimal", "1.5")}},
 			{"i32", [3]valSpec{v("decimal", "1.4"), v("decimal", "1.5"), v("int32", "2")}},
+			{"u32", [3]valSpec{v("decimal", "-0.499"), v("uint16", "37"), v("decimal", "255.4")}},
 			{"coldecimal(10,2)", [3]valSpec{v("decimal", "1.001"), v("decimal", "1.002"), v("decimal", "1.005")}},
 			{"decimal(10,2)", [3]valSpec{v("decimal", "1.001"), v("decimal", "1.002"), v("decimal", "1.00")}},
 			{"coldecimal(5,0)", [3]valSpec{v("int64", "1"), v("decimal", "1.0"), null}},
